@@ -119,6 +119,14 @@ CLAIMED = {
         "bounded differential check against an independent interpretation (stand-in); reader primitives deductively verified under C14/C20",
         "DESIGN.md §4 C06",
     ),
+
+    "C15": (
+        "proof",
+        "Every bridge function (LocalDate/LocalTime/LocalDateTime/Instant/Duration/Offset/OffsetDateTime to_*/from_* and _to_ticks) is symbolically executed from its real source against abstract views of the stdlib values (day number, microsecond of day, total microseconds, utcoffset): exactness, truncation toward the start of time (toward zero for durations), raise-instead-of-misconvert outside the stdlib range, for every value of every calendar (symbolic calendar) and the full stdlib ranges; both round-trip directions are lemmas over the composed real functions. The identification of the stdlib's proleptic Gregorian calendar with the repo's is discharged as ~250,000 ground obligations (every year start, month start and month length of years 1..9999 against datetime.date).",
+        "Trusted: A1-A5 (A5: the documented behaviour of datetime/date/time/timedelta/timezone on their abstract views, specs/dt_models.py; the encoder cross-check runs every contract on real stdlib values), A13 (IEEE doubles in Offset.from_timedelta), CAL axioms (C01). Aware datetimes are restricted to fixed utcoffsets; the aware round trip to whole-second offsets within +-18 h (Offset's resolution). A genuine defect (year 1 rejected) was repaired with a fix: commit.",
+        "contract-based deductive verification: AST symbolic execution of the real functions to VCs (z3/cvc5) with assumed contracts for the stdlib types; ground case split for the Gregorian identification",
+        "DESIGN.md §4 C15",
+    ),
 }
 
 NOT_YET = {}
